@@ -311,4 +311,143 @@ def _stmt(mod: Mod, n: ast.AST) -> ast.AST:
     return n
 
 
-C17 = [glue_rules]
+def glue9(ctx: Ctx) -> None:
+    """GLUE-9 every way into the extraction engine installs pending glue first: in the engine module, every call of a
+    hook dispatcher (unwrap_stackitem / elaborate_frame / ...) inside the engine generator is dominated by
+    add_glue_as_needed(), or every function that starts that generator calls add_glue_as_needed() on every path before it does"""
+    mod = ctx.P.mod("_extract")
+    eng = mod.fn("extract_iter")
+    ctx.R.saw(mod, "extract_iter")
+
+    def glue_calls(fn: ast.AST) -> List[ast.AST]:
+        out = []
+        for c in calls_in(fn, scope_only=True):
+            cal = ctx.P.resolve_call(mod, c)
+            if cal.kind == "pkg" and cal.name.endswith("_glue.add_glue_as_needed"):
+                out.append(_stmt(mod, c))
+        return out
+
+    def dominated(fn: ast.AST, targets: List[ast.AST]) -> Optional[ast.AST]:
+        """first target statement some path reaches without passing an add_glue_as_needed() statement (None: all covered)"""
+        g = ctx.cfg(fn)
+        gs = {g.node_of(s).idx for s in glue_calls(fn)}
+        for t in targets:
+            tn = g.node_of(t)
+            if tn.idx in gs:
+                continue
+            if not gs or not g.all_paths_pass(g.entry, {tn.idx}, gs):
+                return t
+        return None
+
+    hooks = ("unwrap_stackitem", "elaborate_frame")
+    dispatch = [_stmt(mod, c) for c in calls_in(eng, scope_only=True) if isinstance(c.func, ast.Name) and c.func.id in hooks]
+    if not dispatch:
+        raise AnalysisError("GLUE-9: extract_iter no longer dispatches to the hooks")
+    miss = dominated(eng, dispatch)
+    if miss is None:
+        ctx.R.ok("GLUE-9", f"extract_iter: add_glue_as_needed() precedes all {len(dispatch)} hook dispatches on every path",
+                 "every extraction (extract, extract_outermost, extract_child, extract_since/until) runs through extract_iter")
+        return
+    # the engine does not do it itself: every starter must
+    starters = []
+    for q, fn in mod.defs.items():
+        if fn is eng or not isinstance(fn, (ast.FunctionDef, ast.AsyncFunctionDef)):
+            continue
+        cs = [c for c in calls_in(fn, scope_only=True) if ctx.P.resolve_call(mod, c).is_pkg("_extract", "extract_iter")]
+        if cs:
+            starters.append((q, fn, cs))
+    if not starters:
+        raise AnalysisError("GLUE-9: nothing calls extract_iter")
+    def uncovered(q: str, fn: ast.AST, cs: List[ast.AST], depth: int = 0) -> List[Tuple[str, ast.AST]]:
+        """entry points through which the engine is reached without glue: (qualname, offending statement)"""
+        ctx.R.saw(mod, q)
+        m2 = dominated(fn, [_stmt(mod, c) for c in cs])
+        if m2 is None:
+            return []
+        # q itself does not install glue on that path: it is fine if every function of the engine module that calls q does
+        callers = []
+        for q3, f3 in mod.defs.items():
+            if f3 is fn or not isinstance(f3, (ast.FunctionDef, ast.AsyncFunctionDef)):
+                continue
+            c3 = [c for c in calls_in(f3, scope_only=True) if ctx.P.resolve_call(mod, c).is_pkg("_extract", q)]
+            if c3:
+                callers.append((q3, f3, c3))
+        if not callers or depth >= 3:
+            return [(q, m2)]
+        out: List[Tuple[str, ast.AST]] = []
+        for q3, f3, c3 in callers:
+            out += uncovered(q3, f3, c3, depth + 1)
+        return out
+
+    bad: List[Tuple[str, ast.AST]] = []
+    for q, fn, cs in starters:
+        b = uncovered(q, fn, cs)
+        if not b:
+            ctx.R.ok("GLUE-9", f"{q}: add_glue_as_needed() on every path before the engine starts (here or in every caller inside the engine module)")
+        bad += b
+    seen = set()
+    for q, st in bad:
+        if q in seen:
+            continue
+        seen.add(q)
+        ctx.R.fail("GLUE-9", mod, st, f"{q} starts the extraction engine on a path that has not called add_glue_as_needed(), and the engine does not call it itself before dispatching to hooks: "
+                   "glue of a module imported since the last extraction is not installed by an extraction that enters here", construct=f"{q}: extract_iter without add_glue_as_needed")
+
+
+def glue10(ctx: Ctx) -> None:
+    """GLUE-10 a full scan examines every module: inside the scan loop of add_glue_as_needed no path reaches the next
+    iteration without the installer call (or the two registry pops); a skip decided by a memo that persists across scans
+    (module-level or default-argument container other than the pending registry) is a violation -- a module re-imported
+    under a remembered name is a new object whose glue would never run"""
+    mod = ctx.P.mod("_glue")
+    add = mod.fn("add_glue_as_needed")
+    loops = [s for s in ast.walk(add) if isinstance(s, ast.For)]
+    if len(loops) != 1:
+        raise AnalysisError("GLUE-10: the module scan loop of add_glue_as_needed vanished")
+    loop = loops[0]
+    inst = []
+    for c in ast.walk(loop):
+        if isinstance(c, ast.Call):
+            cal = ctx.P.resolve_call(mod, c)
+            if (cal.kind == "pkg" and cal.name.endswith("install_glue_for_module")) or (isinstance(c.func, ast.Attribute) and c.func.attr == "pop" and PENDING in norm(c.func.value)):
+                inst.append(_stmt(mod, c))
+    if not inst:
+        raise AnalysisError("GLUE-10: the scan loop neither calls the installer nor pops the pending registry")
+    g = ctx.cfg(add)
+    header = g.node_of(loop)
+    first = g.node_of(loop.body[0])
+    through = {g.node_of(s).idx for s in inst}
+    if first.idx in through or g.all_paths_pass(header, {header.idx}, through | {n.idx for n in g.nodes if n.idx not in g.reachable_from(first)}):
+        ctx.R.ok("GLUE-10", "every iteration of the module scan reaches the installer: no module in sys.modules is skipped")
+        return
+    # some path skips: who decides?
+    skips = [x for x in ast.walk(loop) if isinstance(x, (ast.Continue, ast.Break))]
+    persistent = set()
+    for a in add.args.args + add.args.kwonlyargs:
+        persistent.add(a.arg)
+    for st in mod.tree.body:
+        if isinstance(st, (ast.Assign, ast.AnnAssign)) and st.value is not None:
+            tg = st.targets[0] if isinstance(st, ast.Assign) else st.target
+            if isinstance(tg, ast.Name) and (isinstance(st.value, (ast.Set, ast.Dict, ast.List)) or (isinstance(st.value, ast.Call) and norm(st.value.func).split(".")[-1] in ("set", "dict", "list", "WeakSet", "WeakValueDictionary", "WeakKeyDictionary", "defaultdict"))):
+                persistent.add(tg.id)
+    persistent.discard(PENDING)
+    reported = False
+    for sk in skips:
+        for gx, pol in guards_of(mod, sk, add):
+            if not any(gx is t or any(gx is y for y in ast.walk(t)) for t in [x.test for x in ast.walk(loop) if isinstance(x, ast.If)]):
+                continue
+            # keyed by the module *name* (the loop variable): `name in memo` / `memo.get(name)` / `memo[name]`
+            lv = norm(loop.target)
+            memo = sorted({norm(c.comparators[0]) for c in ast.walk(gx) if isinstance(c, ast.Compare) and len(c.ops) == 1 and isinstance(c.ops[0], (ast.In, ast.NotIn))
+                           and norm(c.left) == lv and norm(c.comparators[0]) in persistent}
+                          | {norm(c.value) for c in ast.walk(gx) if isinstance(c, ast.Subscript) and norm(c.slice) == lv and norm(c.value) in persistent}
+                          | {norm(c.func.value) for c in ast.walk(gx) if isinstance(c, ast.Call) and isinstance(c.func, ast.Attribute) and c.func.attr == "get" and c.args and norm(c.args[0]) == lv and norm(c.func.value) in persistent})
+            if memo:
+                reported = True
+                ctx.R.fail("GLUE-10", mod, sk, f"the scan skips a module when `{norm(gx)[:60]}`, decided by {memo}, which persists across scans: a module removed and imported again (a new module object, "
+                           "possibly with its own _stackscope_install_glue_) under a remembered name is never examined again", construct=f"scan skip by persistent memo {memo}")
+    if not reported:
+        ctx.R.undecided("GLUE-10", "some path through the scan loop skips the installer call; cannot decide whether the skipped modules can have pending glue")
+
+
+C17 = [glue_rules, glue9, glue10]
